@@ -4,8 +4,8 @@ package simh
 
 import (
 	"encoding/json"
-	mrand "math/rand"
 	"fmt"
+	mrand "math/rand"
 	"os"
 	"runtime"
 	"runtime/debug"
@@ -34,6 +34,7 @@ type Job struct {
 	MaxWall    int               `json:"max_wall_s"`
 	KeepTape   bool              `json:"keep_tape"`
 	RunTimeout int               `json:"run_timeout_s"`
+	TapeLog    string            `json:"tape_log,omitempty"`
 }
 
 func TestWorker(t *testing.T) {
@@ -129,6 +130,12 @@ func RunOne(t *testing.T, sc *scen.Scenario, job *Job, seed uint64, tape []uint3
 				tp = sim.ReplayTape(tape)
 			} else {
 				tp = sim.NewTape(seed)
+			}
+			if job.TapeLog != "" {
+				if f, err := os.Create(job.TapeLog); err == nil {
+					tp.Log = f
+					defer f.Close()
+				}
 			}
 			w := env.NewWorld(tp, dir)
 			if job.Verbose {
